@@ -7,6 +7,9 @@ gen/Facts_escapers.vos gen/Facts_escapers.vok gen/Facts_escapers.required_vos: g
 gen/Facts_paths.vo gen/Facts_paths.glob gen/Facts_paths.v.beautified gen/Facts_paths.required_vo: gen/Facts_paths.v 
 gen/Facts_paths.vio: gen/Facts_paths.v 
 gen/Facts_paths.vos gen/Facts_paths.vok gen/Facts_paths.required_vos: gen/Facts_paths.v 
+gen/Facts_vars.vo gen/Facts_vars.glob gen/Facts_vars.v.beautified gen/Facts_vars.required_vo: gen/Facts_vars.v 
+gen/Facts_vars.vio: gen/Facts_vars.v 
+gen/Facts_vars.vos gen/Facts_vars.vok gen/Facts_vars.required_vos: gen/Facts_vars.v 
 lib/Bytes.vo lib/Bytes.glob lib/Bytes.v.beautified lib/Bytes.required_vo: lib/Bytes.v 
 lib/Bytes.vio: lib/Bytes.v 
 lib/Bytes.vos lib/Bytes.vok lib/Bytes.required_vos: lib/Bytes.v 
@@ -28,6 +31,12 @@ model/PathSpec.vos model/PathSpec.vok model/PathSpec.required_vos: model/PathSpe
 model/PathsM.vo model/PathsM.glob model/PathsM.v.beautified model/PathsM.required_vo: model/PathsM.v lib/Bytes.vo
 model/PathsM.vio: model/PathsM.v lib/Bytes.vio
 model/PathsM.vos model/PathsM.vok model/PathsM.required_vos: model/PathsM.v lib/Bytes.vos
+model/VarsM.vo model/VarsM.glob model/VarsM.v.beautified model/VarsM.required_vo: model/VarsM.v lib/Bytes.vo gen/Facts_vars.vo
+model/VarsM.vio: model/VarsM.v lib/Bytes.vio gen/Facts_vars.vio
+model/VarsM.vos model/VarsM.vok model/VarsM.required_vos: model/VarsM.v lib/Bytes.vos gen/Facts_vars.vos
+model/VarsSpec.vo model/VarsSpec.glob model/VarsSpec.v.beautified model/VarsSpec.required_vo: model/VarsSpec.v lib/Bytes.vo model/VarsM.vo
+model/VarsSpec.vio: model/VarsSpec.v lib/Bytes.vio model/VarsM.vio
+model/VarsSpec.vos model/VarsSpec.vok model/VarsSpec.required_vos: model/VarsSpec.v lib/Bytes.vos model/VarsM.vos
 proofs/Expand_proofs.vo proofs/Expand_proofs.glob proofs/Expand_proofs.v.beautified proofs/Expand_proofs.required_vo: proofs/Expand_proofs.v lib/Bytes.vo model/PathsM.vo model/PathSpec.vo model/ExpandM.vo proofs/Paths_proofs.vo
 proofs/Expand_proofs.vio: proofs/Expand_proofs.v lib/Bytes.vio model/PathsM.vio model/PathSpec.vio model/ExpandM.vio proofs/Paths_proofs.vio
 proofs/Expand_proofs.vos proofs/Expand_proofs.vok proofs/Expand_proofs.required_vos: proofs/Expand_proofs.v lib/Bytes.vos model/PathsM.vos model/PathSpec.vos model/ExpandM.vos proofs/Paths_proofs.vos
@@ -40,6 +49,15 @@ proofs/HtmlDecode_proofs.vos proofs/HtmlDecode_proofs.vok proofs/HtmlDecode_proo
 proofs/Paths_proofs.vo proofs/Paths_proofs.glob proofs/Paths_proofs.v.beautified proofs/Paths_proofs.required_vo: proofs/Paths_proofs.v lib/Bytes.vo model/PathsM.vo model/PathSpec.vo
 proofs/Paths_proofs.vio: proofs/Paths_proofs.v lib/Bytes.vio model/PathsM.vio model/PathSpec.vio
 proofs/Paths_proofs.vos proofs/Paths_proofs.vok proofs/Paths_proofs.required_vos: proofs/Paths_proofs.v lib/Bytes.vos model/PathsM.vos model/PathSpec.vos
+proofs/VarsRun_proofs.vo proofs/VarsRun_proofs.glob proofs/VarsRun_proofs.v.beautified proofs/VarsRun_proofs.required_vo: proofs/VarsRun_proofs.v lib/Bytes.vo gen/Facts_vars.vo model/VarsM.vo model/VarsSpec.vo proofs/Vars_proofs.vo
+proofs/VarsRun_proofs.vio: proofs/VarsRun_proofs.v lib/Bytes.vio gen/Facts_vars.vio model/VarsM.vio model/VarsSpec.vio proofs/Vars_proofs.vio
+proofs/VarsRun_proofs.vos proofs/VarsRun_proofs.vok proofs/VarsRun_proofs.required_vos: proofs/VarsRun_proofs.v lib/Bytes.vos gen/Facts_vars.vos model/VarsM.vos model/VarsSpec.vos proofs/Vars_proofs.vos
+proofs/Vars_proofs.vo proofs/Vars_proofs.glob proofs/Vars_proofs.v.beautified proofs/Vars_proofs.required_vo: proofs/Vars_proofs.v lib/Bytes.vo gen/Facts_vars.vo model/VarsM.vo model/VarsSpec.vo
+proofs/Vars_proofs.vio: proofs/Vars_proofs.v lib/Bytes.vio gen/Facts_vars.vio model/VarsM.vio model/VarsSpec.vio
+proofs/Vars_proofs.vos proofs/Vars_proofs.vok proofs/Vars_proofs.required_vos: proofs/Vars_proofs.v lib/Bytes.vos gen/Facts_vars.vos model/VarsM.vos model/VarsSpec.vos
+props/C17.vo props/C17.glob props/C17.v.beautified props/C17.required_vo: props/C17.v lib/Bytes.vo gen/Facts_vars.vo model/VarsM.vo model/VarsSpec.vo proofs/Vars_proofs.vo proofs/VarsRun_proofs.vo
+props/C17.vio: props/C17.v lib/Bytes.vio gen/Facts_vars.vio model/VarsM.vio model/VarsSpec.vio proofs/Vars_proofs.vio proofs/VarsRun_proofs.vio
+props/C17.vos props/C17.vok props/C17.required_vos: props/C17.v lib/Bytes.vos gen/Facts_vars.vos model/VarsM.vos model/VarsSpec.vos proofs/Vars_proofs.vos proofs/VarsRun_proofs.vos
 props/C18.vo props/C18.glob props/C18.v.beautified props/C18.required_vo: props/C18.v lib/Bytes.vo model/PathsM.vo model/PathSpec.vo model/ExpandM.vo proofs/Paths_proofs.vo proofs/Expand_proofs.vo
 props/C18.vio: props/C18.v lib/Bytes.vio model/PathsM.vio model/PathSpec.vio model/ExpandM.vio proofs/Paths_proofs.vio proofs/Expand_proofs.vio
 props/C18.vos props/C18.vok props/C18.required_vos: props/C18.v lib/Bytes.vos model/PathsM.vos model/PathSpec.vos model/ExpandM.vos proofs/Paths_proofs.vos proofs/Expand_proofs.vos
